@@ -144,4 +144,28 @@ theorem zw_run (E : Env) (hprog : E.prog.getD 0 [] = zwCode)
   | 0, _, h => h
   | k + 1, s, h => zw_run E hprog hsmall t k _ (zw_step E hprog hsmall t s h)
 
+theorem zw_start (E : Env) (s0 : St) (hfresh : find s0.threads s0.nextTid = none) (hd : s0.depth = 0)
+    (hub : s0.ub = false) (hc : s0.cur = none) (htm : s0.timer.elems = []) (hs : s0.scaled ≤ s0.timer.mtime) :
+    ZW E s0.nextTid (startCall E s0 0) := by
+  have hf := find_append_new s0.threads s0.nextTid ({ label := 0, grp := s0.nextTid } : Thr) hfresh
+  have hnd : ¬ s0.depth > E.cfg.maxDepth := by omega
+  unfold startCall enterSei
+  simp only [newThread, Option.getD_none]
+  rw [stopThread_running _ s0.nextTid _ (by simpa using hf) rfl]
+  unfold enterVM
+  simp only [hnd, if_false]
+  have hthr : ∀ s : St, s.threads = upd (s0.threads ++ [(s0.nextTid, ({ label := 0, grp := s0.nextTid } : Thr))]) s0.nextTid
+      (fun th => { th with vs := VState.running }) → ThrIs s s0.nextTid 0 .running .running := by
+    intro s hs'
+    refine ⟨{ ({ label := 0, grp := s0.nextTid } : Thr) with vs := VState.running }, ?_, rfl, rfl, rfl, rfl⟩
+    rw [hs']
+    exact find_upd_self _ s0.nextTid (fun th => { th with vs := VState.running }) _ hf
+  by_cases hL : E.cfg.maxExec ≠ 0
+  · rw [if_pos hL]
+    exact .fetchWait _ (s0.now + E.cfg.maxExec) (s0.now + E.inc s0.reads) 0 [.sei s0.nextTid none, .thrExec] hub rfl
+      (by simpa [tick] using hs) (Or.inl rfl) (by simp [tick, hc]) (hthr _ rfl) (by simpa [tick] using htm) (by simp [tick, hd])
+  · rw [if_neg hL]
+    exact .fetchWait _ 0 s0.now 0 [.sei s0.nextTid none, .thrExec] hub rfl
+      (by simpa [tick] using hs) (Or.inl rfl) (by simp [tick, hc]) (hthr _ rfl) (by simpa [tick] using htm) (by simp [tick, hd])
+
 end Morfuse.Unwind
